@@ -238,6 +238,69 @@ pub fn strat(max_len: usize) -> impl Strategy<Value = LzCase> {
     prop_oneof![6 => derived, 3 => relatives, 1 => unrelated]
 }
 
+
+/// libFuzzer leg: decode a byte string into a case (every byte string decodes).
+/// mode even: raw - the bytes after the header are split into reference and target;
+/// mode odd: the target is built from the reference by an edit script read from the bytes.
+pub fn from_fuzz(data: &[u8]) -> LzCase {
+    use crate::fuzzing::{sym, Cur};
+    let mut c = Cur::new(data);
+    let min_match = 5 + c.u8() % 28;
+    let mode = c.u8();
+    let sym30 = |b: u8| if b == 255 { 30 } else { sym(b) };
+    if mode & 1 == 0 {
+        let split = c.u16();
+        let rest = c.rest();
+        let p = scale(split, rest.len() + 1);
+        LzCase { reference: rest[..p].iter().map(|&b| sym30(b)).collect(), target: rest[p..].iter().map(|&b| sym30(b)).collect(), min_match }
+    } else {
+        let rl = (c.u16() % 3000) as usize;
+        let reference: Vec<u8> = c.take(rl).iter().map(|&b| sym30(b)).collect();
+        let mut ops = Vec::new();
+        while !c.is_empty() && ops.len() < 24 {
+            let op = match c.u8() % 8 {
+                0 | 1 | 2 => Op::Copy { from: c.u16(), len: c.u16() % 3000 },
+                3 => Op::RevCopy { from: c.u16(), len: 10 + c.u8() as u16 },
+                4 => Op::Mutated { from: c.u16(), len: 50 + c.u16() % 2000, seed: c.u32() as u64, rate_ppm: [1_000, 10_000, 30_000, 100_000][(c.u8() % 4) as usize] },
+                5 => {
+                    let n = 1 + (c.u8() % 32) as usize;
+                    Op::Lit(c.take(n).iter().map(|&b| b & 3).collect())
+                }
+                6 => {
+                    let b = c.u8();
+                    Op::NRun(if b < 160 { 1 + (b % 8) as u16 } else { 1 + c.u16() % 400 })
+                }
+                _ => Op::Sym(sym30(c.u8() | 0xd0)),
+            };
+            ops.push(op);
+        }
+        let target = apply(&reference, &ops);
+        LzCase { reference, target, min_match }
+    }
+}
+
+pub fn fuzz_seeds() -> Vec<Vec<u8>> {
+    let mut out = Vec::new();
+    let mut r = SplitMix::new(0xC09);
+    let body: Vec<u8> = (0..300).map(|_| (r.next() & 0x7f) as u8).collect();
+    // raw: target == reference, target = reference with a few edits
+    let mut a = vec![15u8, 0, 0x00, 0x80];
+    a.extend_from_slice(&body);
+    a.extend_from_slice(&body);
+    out.push(a.clone());
+    let n = a.len();
+    a[n - 40] ^= 1;
+    a[n - 90] = 210;
+    out.push(a);
+    // ops: copy, mutated copy, N run, literal
+    let mut b = vec![10u8, 1, 200, 0];
+    b.extend_from_slice(&body[..200]);
+    b.extend_from_slice(&[0, 0, 0, 150, 0, 4, 0, 64, 100, 0, 1, 2, 3, 4, 1, 6, 5, 5, 3, 1, 2, 3, 7, 230, 2, 0, 128, 60, 0]);
+    out.push(b);
+    out.push(vec![5, 0, 0, 0, 1, 2, 3]);
+    out
+}
+
 fn strings(alphabet: &'static [u8], max_len: usize) -> Vec<Vec<u8>> {
     let a = alphabet.len() as u64;
     let mut out = Vec::new();
@@ -288,6 +351,10 @@ pub fn run(ctx: &Ctx, stats: &mut Stats) {
     let n = ctx.tier.pick(3_000_000, 30_000_000);
     let max_len = ctx.tier.pick(2_000, 40_000);
     run_prop(ctx, stats, "random", n, strat(max_len), &check);
+    // coverage-guided leg (thorough tier): same oracle inside a libFuzzer target
+    if ctx.tier == Tier::Thorough || std::env::var("VERIF_FUZZ").is_ok() {
+        crate::fuzzing::run_stage(ctx, stats, "lz", ctx.tier.pick(400_000, 8_000_000));
+    }
 }
 
 pub fn replay(ctx: &Ctx, _stage: &str, case: &Value) -> Report {
